@@ -242,7 +242,29 @@ def per_call_roots(ctx):
     cs = [c for c in calls_in(u) if callee_qual(p, u, c) == 'core._glom']
     ok = len(cs) == 1 and [a.id if isinstance(a, ast.Name) else None for a in cs[0].args] == [u.params[0], u.params[1], rootvar]
     ctx.ob(ok, u, 'evaluation starts at the root frame: %s' % [norm(c) for c in cs])
-    # the default scope itself is written only at import time
+    # the default scope (shared by every call, copied into every Glommer) holds what is meant to be
+    # process-wide and nothing per call: the evaluator and the default registry
+    mod = p.modules['glom.core']
+    keys = []
+    for st in mod.tree.body:
+        for c in ast.walk(st):
+            if isinstance(c, ast.Call) and isinstance(c.func, ast.Attribute) and c.func.attr in ('update', 'setdefault', '__setitem__') \
+                    and is_name(c.func.value, '_DEFAULT_SCOPE'):
+                for a in c.args:
+                    if isinstance(a, ast.Dict):
+                        keys += [norm(k) for k in a.keys if k is not None]
+                    else:
+                        keys.append(norm(a))
+            if isinstance(st, ast.Assign) and c is st and any(isinstance(t, ast.Subscript) and is_name(t.value, '_DEFAULT_SCOPE') for t in st.targets):
+                keys += [norm(t.slice) for t in st.targets if isinstance(t, ast.Subscript)]
+            if isinstance(st, ast.Assign) and c is st and any(is_name(t, '_DEFAULT_SCOPE') for t in st.targets):
+                for d in ast.walk(st.value):
+                    if isinstance(d, ast.Dict):
+                        keys += [norm(k) for k in d.keys if k is not None]
+    extra = sorted(set(keys) - {'glom', 'TargetRegistry'})
+    ctx.ob(not extra and {'glom', 'TargetRegistry'} <= set(keys), 'glom/core.py',
+           'the process-wide default scope holds the evaluator and the default registry only: %s' % sorted(set(keys)),
+           '' if not extra else '%s in the default scope is shared by every call (and copied by reference into every Glommer)' % extra)
     ctx.floor(9)
 
 
